@@ -68,7 +68,7 @@ Definition count_byte (n : N) (s : bytes) : nat := List.length (filter (is_byte 
 Definition image_ok (e : env) (a : lql) (p : bytes) : bool :=
   if Nat.ltb 0 (count_byte 123 p) && Nat.ltb 1 (count_byte 125 p) then true
   else match tokenize go_unquote p with
-       | Some ts => toks_eqb ts (tk_lql (m_line e) (m_fmt e) (m_quote e) a)
+       | Some ts => toks_eqb ts (tk_lql (m_line e) (m_fmt e) a)
        | None => false
        end.
 
